@@ -915,6 +915,33 @@ func runAndCheck(t interface {
 	}
 }
 
+// TestConcurrentCompletionStress: burst cases only, in wave mode, each repeated stressReps
+// times: several stages hand a failure / a worker-side panic / their completion to the state
+// machine at the same instant (the compare-and-swap on "completed" and the hand-over of the
+// error together with the pending counter are only contended here). Unsystematic: which
+// interleavings occur is up to the scheduler; the oracle holds for every interleaving.
+const stressReps = 50
+
+func TestConcurrentCompletionStress(t *testing.T) {
+	rapid.Check(t, func(t *rapid.T) {
+		spec := genBurst(t, true)
+		for rep := 0; rep < stressReps; rep++ {
+			if rep == 0 {
+				runAndCheck(t, "TestConcurrentCompletionStress", spec)
+				continue
+			}
+			res, herr := runCase(spec)
+			if herr != nil {
+				t.Fatalf("C19 violated: [stuck] %v (repetition %d)\n tree:   %s", herr, rep, spec.canon())
+			}
+			if vs := checkOracle(spec, res); len(vs) > 0 {
+				t.Fatalf("C19 violated (repetition %d): [%s] %s\n tree:   %s\n events: %s\n callbacks=%d err=%v",
+					rep, vs[0].Sig, vs[0].Text, spec.canon(), strings.Join(res.Seq, " "), res.CbCount, res.CbErr)
+			}
+		}
+	})
+}
+
 // TestPipelineCompletion: harness-owned completion order (one stage released at a time).
 func TestPipelineCompletion(t *testing.T) {
 	rapid.Check(t, func(t *rapid.T) {
